@@ -58,13 +58,19 @@ def sig_of_target(t: Target, scope: Fn, obs: str, root: Fn) -> str:
 
 def _describe_local(scope: Fn, name: str) -> str:
     """A local is named by its (single) initialiser, not by its identifier: `s = set()` -> `set()`."""
-    o = scope.owner(name) if "." not in name else None
+    cell = name.endswith("[0]")
+    if cell:
+        name = name[:-3]
+    o = scope.owner(name) if "." not in name and "[" not in name else None
     if o is None or not o.is_func:
         return name
     inits = [n.value for n in o.direct_nodes() if isinstance(n, (ast.Assign, ast.AnnAssign)) and n.value is not None
              and any(isinstance(t, ast.Name) and t.id == name for t in (n.targets if isinstance(n, ast.Assign) else [n.target]))]
     if len(inits) == 1:
-        return short(inits[0], 30)
+        v = inits[0]
+        if cell and isinstance(v, ast.List) and len(v.elts) == 1:
+            v = v.elts[0]
+        return short(v, 30)
     return name
 
 
